@@ -499,6 +499,8 @@ fn find_join<G, F>(
         return;
     }
 
+    #[cfg(feature = "verif-hooks")]
+    crate::verif::hit(crate::verif::Site::matching_blossom_join);
     // Flag the (first) inner vertices. This ensures that they are assigned the
     // join as their first inner vertex.
     let flag = Label::Flag(edge.id());
@@ -584,6 +586,8 @@ fn augment_path<G>(
             augment_path(graph, vertex, temp, mate, label);
         }
     } else if let Label::Edge(_, [source, target]) = label[outer_idx] {
+        #[cfg(feature = "verif-hooks")]
+        crate::verif::hit(crate::verif::Site::matching_augment_edge_label);
         // The outer vertex has an edge label which refers to an edge in a
         // blossom. We need to augment both directions along the blossom.
         augment_path(graph, source, target, mate, label);
